@@ -1,5 +1,14 @@
-"""Registry: property id -> contract modules (each exports SPECS) and evidence metadata."""
+"""Registry: property id -> contract modules (each exports SPECS) and evidence/manifest metadata (plain data, no z3)."""
 REGISTRY = {
-    'C16': {'modules': ['contracts.static'], 'level': 'proof',
-            'explanation': 'contracts on get_ranges / Static._on_request / serve_file discharged path-wise by z3/cvc5'},
+    'C16': {
+        'modules': ['contracts.static'], 'level': 'proof',
+        'level_text': 'For all Range headers and lengths, and for all request paths / docroots / mount points, the contracts on '
+                      'get_ranges and Static._on_request are discharged on every path of the real functions (loop invariants, no bound); '
+                      'the path-normalisation functions of os.path are trusted uninterpreted functions, so containment is proved '
+                      'without relying on what ".." resolves to.',
+        'level_note': 'trusted: os.path.abspath/join/dirname/exists/isfile/isdir, urllib unquote/quote (uninterpreted, axioms listed in '
+                      'evidence.trusted_base), int(str)/str.strip/str.split axiomatisation; front-end URL sanitising is not assumed.',
+        'explanation': 'contracts on get_ranges / Static._on_request discharged path-wise by z3/cvc5',
+        'not_decided': ['multipart/byteranges generator body of serve_file', 'URL.abspath/escape of the HTTP front-end guard'],
+    },
 }
